@@ -61,4 +61,44 @@ PROPS = {
         assumptions=["GoodDoc: message-id parses, leaves hold parseable tokens (after trim), leaf contents contain no element "
                      "with the leaf's own name and no tokenizer error"],
     ),
+    "C19": dict(
+        thm=["Bgpfu.Thm.C19"],
+        # cfg=pinned: the model op uses the back-off rule of task.rs as it is in /repo now
+        # (min(period, 2b)); switch to cfg=fixed once the D12 repair (min(max(period, MIN), 2b)) is in /repo
+        ops=[("daemon", ["cfg=fixed"])],
+        level_text="Theorems over every event list (every sequence of run outcomes and durations, every placement of "
+                   "SIGHUP/SIGINT/SIGTERM), every period > 0 and every position in the loop's timeline: the retry delay "
+                   "after the n-th consecutive failure is backoffAt n (first = 60 s, again after every success); every "
+                   "delay lies in [min(60 s, period), max(60 s, period)] and is > 0, a run start is preceded by that delay "
+                   "or by a SIGHUP at the same instant; a success is followed by exactly `period`; for the repaired rule "
+                   "delays never shrink along consecutive failures, grow strictly below the cap, closed form "
+                   "min(max(period,60 s), 60 s*2^n); SIGHUP while waiting starts a run at that instant; SIGINT/SIGTERM "
+                   "while waiting end the loop and nothing is observed afterwards. Counter-example theorem for the pinned "
+                   "rule (period 10 s: 60 s then 10 s). The real Loop::start is run under tokio's paused clock with a "
+                   "failing scripted connector and signals raised with raise(2) at scripted virtual times.",
+        level_note="The theorems are about the Lean loop model (Model/Daemon.lean: one transition per select! arm); fidelity "
+                   "to task.rs is sampled by the correspondence run, exact to the millisecond in virtual time. Only FAILURE "
+                   "histories and signals are exercised against the real code: a successful Updater::run needs "
+                   "block_in_place (multi-thread runtime, no paused clock) plus a fake Junos server and a fake IRRd which do "
+                   "not exist yet (TODO(C19-success) hook in harness/src/daemon.rs); the success arm (interval.reset(), "
+                   "backoff = MIN_BACKOFF) is therefore covered by the theorems and by reading the code only. tokio's "
+                   "Interval/signal semantics (A1-A5 in the model file) are assumptions; simultaneous readiness of several "
+                   "select! arms is excluded from the scripts (random in the real code), not modelled. D12: with period < 60 s "
+                   "the unrepaired rule gives 60 s, period, period, ...; the spec op reports class `delay-shrinks` for those "
+                   "histories until task.rs is repaired and the op token is switched to cfg=fixed.",
+        rule="real Loop::start via agent::verif::run_loop, current-thread runtime with paused clock, connector records "
+             "tokio::time::Instant::now() and fails after a scripted virtual duration; periods 1,2,10,30,59,60,61,90,119,"
+             "120,121,300,3600,86400 s (+ random 1..400); failure-only histories at three horizons; one signal of each kind "
+             "placed 1 ms after a run end / 1 ms before the next start / mid-wait / mid-run / 1 ms after run start for the "
+             "1st, 2nd, 3rd and last wait of the implementation's own signal-free timeline; SIGHUP followed by a second "
+             "signal; random scripts with up to 4 signals; a case is distinct by (period, horizon, run durations, signals)",
+        trusted=["tokio 1.37 time::Interval (first tick immediate; reset/reset_after/reset_immediately relative to now), "
+                 "paused-clock auto-advance, signal::unix streams latch a signal until polled",
+                 "libc::raise delivers the signal synchronously to tokio's process-wide handler",
+                 "MIN_BACKOFF is read from task.rs by text search; frequency 0 never reaches Loop (NonZeroU64), checked by text search"],
+        assumptions=["period > 0 (daemon mode: cli.rs maps frequency 0 to one-shot, init_loop takes NonZeroU64)",
+                     "timers are prompt (a tick fires at its deadline); real-time latency is outside the model",
+                     "no two select! arms become ready at the same instant (the real choice is random)",
+                     "successful runs are not exercised against the real code yet"],
+    ),
 }
